@@ -50,6 +50,7 @@ type c05Scenario struct {
 	// Staggered: spawn order txn0, q0, txn1, q1, txn2, ... instead of all transactions first
 	Staggered    bool
 	ThoroughOnly bool
+	QuickBound   int // with ThoroughOnly: preemption bound used in the quick tier (0 = scenario skipped in quick)
 }
 
 var c05Series = map[string]labels.Labels{
@@ -71,8 +72,8 @@ func c05Scenarios() []c05Scenario {
 		// three appenders and two queriers, spawned in the order L, q0, A2, q1, X: with 2 preemptions an
 		// OLD reader (created while L is still open) is still reading after a NEWER reader was opened
 		// and a later appender X committed to a subset of L's series (exercises the isolation low
-		// watermark with more than one open reader). Thorough tier only (large space).
-		{Name: "3txn-2q-staggered", Pre: pre3[:1], Txns: []c05Txn{{"L", []string{"s1", "s2"}, 20, 100, false}, {"A2", []string{"s3"}, 21, 200, false}, {"X", []string{"s1"}, 22, 300, false}}, Queriers: 2, Staggered: true, ThoroughOnly: true},
+		// watermark with more than one open reader). Large space: preemption bound 1 in the quick tier.
+		{Name: "3txn-2q-staggered", Pre: pre3[:1], Txns: []c05Txn{{"L", []string{"s1", "s2"}, 20, 100, false}, {"A2", []string{"s3"}, 21, 200, false}, {"X", []string{"s1"}, 22, 300, false}}, Queriers: 2, Staggered: true, ThoroughOnly: true, QuickBound: 1},
 	}
 }
 
@@ -430,12 +431,16 @@ func TestVerifC05(t *testing.T) {
 		if r.NShards > 1 && si%r.NShards != r.Shard {
 			continue
 		}
-		if sc.ThoroughOnly && r.Quick() {
+		if sc.ThoroughOnly && r.Quick() && sc.QuickBound == 0 {
 			continue
+		}
+		scBound := bound
+		if sc.ThoroughOnly && r.Quick() {
+			scBound = sc.QuickBound
 		}
 		outcomes := map[string]int{}
 		var last vsched.Result
-		for b := 0; b <= bound; b++ { // iterate the bound: 0, 1, 2, ...
+		for b := 0; b <= scBound; b++ { // iterate the bound: 0, 1, 2, ...
 			var cur *c05Obs
 			body := func() func() {
 				cur = &c05Obs{commitCall: map[string]int{}, commitRet: map[string]int{}, appendErr: map[string]string{}}
@@ -515,7 +520,7 @@ func TestVerifC05(t *testing.T) {
 		if len(outcomes) < 2 {
 			t.Fatalf("scenario %s is vacuous: a single observed outcome %v", sc.Name, outcomes)
 		}
-		perScenario[sc.Name] = map[string]any{"bound_completed": last.Complete, "max_points": last.MaxPoints, "distinct_outcomes": len(outcomes)}
+		perScenario[sc.Name] = map[string]any{"preemption_bound": scBound, "bound_completed": last.Complete, "max_points": last.MaxPoints, "distinct_outcomes": len(outcomes)}
 		for o := range outcomes {
 			r.Distinct("distinct_outcomes", sc.Name+":"+o)
 		}
